@@ -4,7 +4,7 @@
    also what is extracted and run against the real C++. *)
 From Coq Require Import ZArith List Bool.
 From MomoCommon Require Import GenPrelude.
-From C17 Require Gen_Leaves Leaves_Proofs SorterSearch SorterSort Search_Proofs Find_Proofs IsSorted_Proofs Sort_Proofs Radix_Proofs CodeGetter Checker Instance SelPrims Gen_SelSort SelSort_Proofs SelSort_Refine Gen_Radix Radix_Gen_Proofs Gen_RadixCount Radix_Count_Refine Gen_RadixCycle Radix_Cycle_Refine Gen_HsGuards HsGuards_Proofs.
+From C17 Require Gen_Leaves Leaves_Proofs SorterSearch SorterSort Search_Proofs Find_Proofs IsSorted_Proofs Sort_Proofs Radix_Proofs CodeGetter Checker Instance SelPrims Gen_SelSort SelSort_Proofs SelSort_Refine Gen_Radix Radix_Gen_Proofs Gen_RadixCount Radix_Count_Refine Gen_RadixCycle Radix_Cycle_Refine Gen_HsGuards HsGuards_Proofs Gen_FindHash FindHash_Refine Gen_Group Group_Refine.
 Import ListNotations.
 Local Open Scope Z_scope.
 
@@ -321,3 +321,44 @@ Theorem C17_gen_empty_sequence_guards_refine_model : forall MS SC CMP count hash
   (Gen_HsGuards.pvFindHash_returns_early 0 = true /\ Gen_HsGuards.pvIsSorted_returns_early 0 = true).
 Proof. exact HsGuards_Proofs.gen_guards_refine_model. Qed.
 Print Assumptions C17_gen_empty_sequence_guards_refine_model.
+
+(* ---- the GENERATED interpolation loop of HashSorter::pvFindHash (Gen_FindHash.v; returns = exit codes) ---- *)
+
+(* simulation: whenever the hand model's fh_loop returns Ok res, the generated loop (same fuel, same state) returns an exit
+   code and loop state whose continuation -- the sub-search the source performs at that exit -- returns res *)
+Theorem C17_gen_findhash_loop_refines_model : forall count begin qh hash, 0 < count < 2 ^ 62 ->
+  forall f left right middle step res, 0 <= left <= count -> 0 <= step < 2 ^ 64 ->
+    SorterSearch.fh_loop Gen_Leaves.pvMultShift Gen_Leaves.pvCompare count hash qh f left right middle step = Ok res ->
+    exists code st, Gen_FindHash.pvFindHash_loop0 f begin count hash qh left middle right step = Ok (code, st) /\
+      FindHash_Refine.continuation count qh hash code st = Ok res.
+Proof. exact FindHash_Refine.gen_loop_simulates. Qed.
+Print Assumptions C17_gen_findhash_loop_refines_model.
+
+(* for EVERY array (sorted or not, count < 2^62 incl. 0): the generated pvFindHash has the empty-sequence guard, starts the
+   loop with the generated pvMultShift / pvGetStepCount values, the loop terminates within 5 iterations with an exit whose
+   continuation returns a result satisfying the pvFindHash specification (all reads in [0,count); found -> the index carries
+   the hash; hash-sorted & not found -> lower bound), and that result is the hand model's FindHash result *)
+Theorem C17_gen_findhash_total : forall count begin hash qh,
+  0 <= count < 2 ^ 62 -> (forall i, 0 <= i < count -> 0 <= hash i < 2 ^ 64) -> 0 <= qh < 2 ^ 64 ->
+  (count = 0 /\ Gen_FindHash.pvFindHash hash begin count qh = Ok 1 /\ Instance.FindHash count hash qh = Ok (0, false)) \/
+  (0 < count /\ exists code st k b,
+     Gen_FindHash.pvFindHash_loop0 5 begin count hash qh 0 (Gen_Leaves.pvMultShift qh count) count (Gen_Leaves.pvGetStepCount count) = Ok (code, st) /\
+     Gen_FindHash.pvFindHash hash begin count qh = Ok (match code with Some c => c | None => 5 end) /\
+     FindHash_Refine.continuation count qh hash code st = Ok (k, b) /\ Instance.FindHash count hash qh = Ok (k, b) /\
+     Search_Proofs.fhres count hash qh k b).
+Proof. exact FindHash_Refine.gen_findhash_total. Qed.
+Print Assumptions C17_gen_findhash_total.
+
+(* ---- the GENERATED HashSorter::pvGroup (Gen_Group.v) ---- *)
+(* on the sub-array [q, q+cnt) of any array, for any equivalence equalFunc: the generated loops terminate, return exactly the
+   items of the hand model's result l', which is a rearrangement of that range only (relR) in which equal items are contiguous *)
+Theorem C17_gen_group_makes_equal_contiguous : forall sw, (forall l i j, sw l i j = SorterSort.swap l i j) ->
+  forall eqf q cnt begin, 0 <= q -> 0 <= cnt < 2 ^ 62 -> forall loop_fuel,
+  (forall a, eqf a a = true) -> (forall a b, eqf a b = true -> eqf b a = true) ->
+  (forall a b c, eqf a b = true -> eqf b c = true -> eqf a c = true) ->
+  forall l, q + cnt <= SorterSort.alen l -> (Z.to_nat cnt + 1 < loop_fuel)%nat ->
+  exists items' l', Gen_Group.pvGroup eqf loop_fuel (fun k => SorterSort.itm l (q + k)) begin cnt = Ok (tt, items') /\
+    SorterSort.pvGroup sw eqf l q cnt = Ok l' /\ (forall k, 0 <= k -> items' k = SorterSort.itm l' (q + k)) /\
+    Sort_Proofs.relR q (q + cnt) l l' /\ Sort_Proofs.contigL eqf l' q (q + cnt).
+Proof. exact Group_Refine.gen_pvGroup_spec. Qed.
+Print Assumptions C17_gen_group_makes_equal_contiguous.
